@@ -14,6 +14,8 @@ THEOREMS = {
     "SpecKitV.Lemmas.Starts": ["nsegRaw_eq", "capK_le", "startsEven_safe", "startsAccum_safe", "overlapMean_eq_closed", "overlapMean_accum_eq_closed"],
     "SpecKitV.Lemmas.SchedNewVec": ["SchedNV.searchLeft_mono", "SchedNV.roundEven_mono", "SchedNV.roundEven_abs_sub_le"],
     "SpecKitV.Props.C04": ["ltfPlan_monotone", "lpsdPlan_monotone", "ltfPlan_K_formula", "lpsdPlan_K_formula", "ltfPlan_logspaced", "plan_even_spread", "plan_overlap_reported", "findJdes_sound", "findJdes_fuel", "findJdes_complete"],
+    "SpecKitV.Props.SchedGen": ["gen_ltf_round_eq", "gen_ltf_walk_eq_model", "gen_new_walk_eq_model"],
+    "SpecKitV.Props.Utils": ["gen_round_half_up_eq_model", "gen_round_half_up_eq_floor"],
 }
 CONTRACTS: List[str] = []
 ASSUMPTIONS = ["sub-claim 'vectorised bin count within 10 % of the iterative one' is a comparison of two algorithms that no theorem here decides: "
